@@ -199,6 +199,11 @@ class LanguageServerProtocol(JsonRPCProtocol, metaclass=LSPMeta):
         for change in params.content_changes:
             self.workspace.update_text_document(params.text_document, change)
 
+        if not params.content_changes:
+            # Nothing to apply, the notification still carries the current version.
+            document = self.workspace.get_text_document(params.text_document.uri)
+            document.version = params.text_document.version
+
     @lsp_method(types.TEXT_DOCUMENT_DID_CLOSE)
     def lsp_text_document__did_close(
         self, params: types.DidCloseTextDocumentParams
